@@ -40,6 +40,8 @@ type subject struct {
 	scp    app.Scope        // non-nil when the subject is a full scope (Wait/Close checked)
 	parent app.Scope        // for child subjects: the parent (must end up failed too for shared children)
 	isoPar app.ContextScope
+	rawIso app.ContextScope // isolated subjects: the isolated context itself
+	rawPar app.ContextScope // … and the context it watches
 }
 
 func newSubject(kind string) *subject {
@@ -50,6 +52,7 @@ func newSubject(kind string) *subject {
 	case "isolated":
 		s.isoPar = contextscope.New()
 		s.ctx = contextscope.NewIsolated(s.isoPar)
+		s.rawIso, s.rawPar = s.ctx, s.isoPar
 	case "scope":
 		s.scp = scope.New(scope.Params{})
 		s.ctx = s.scp
@@ -59,7 +62,9 @@ func newSubject(kind string) *subject {
 		s.ctx = s.scp
 	case "child-isolated":
 		s.parent = scope.New(scope.Params{})
-		s.scp = scope.NewChild(s.parent, scope.ChildParams{ContextScope: contextscope.NewIsolated(s.parent.BaseContextScope())})
+		s.rawPar = s.parent.BaseContextScope()
+		s.rawIso = contextscope.NewIsolated(s.rawPar)
+		s.scp = scope.NewChild(s.parent, scope.ChildParams{ContextScope: s.rawIso})
 		s.ctx = s.scp
 	}
 	return s
@@ -100,6 +105,51 @@ func hammer(r *sup.CaseResult, rng *rand.Rand, kind string, g, opsPer int) {
 	var firstPanic atomic.Value
 	start := make(chan struct{})
 	var wg sync.WaitGroup
+	// isolated subjects: in half of the trials another goroutine ends the PARENT while the isolated
+	// scope is being signalled (1 Kill, 2 AppendError, 3 Stop): the watcher goroutine of the isolated
+	// context then stops / kills it on top of what the callers did – nothing appended may get lost
+	var parentCtx app.ContextScope
+	if s.isoPar != nil {
+		parentCtx = s.isoPar
+	} else if kind == "child-isolated" {
+		parentCtx = s.parent
+	}
+	parentEnd := 0
+	var parentErr *uerr
+	me := goid()
+	if parentCtx != nil {
+		defer func() { // no watcher goroutine outlives its trial (the raw contexts: a closed scope refuses calls)
+			s.rawIso.Stop()
+			s.rawPar.Stop()
+		}()
+		if rng.Intn(2) == 0 {
+			parentEnd = 1 + rng.Intn(3)
+			parentErr = &uerr{id: atomic.AddInt64(&errCtr, 1)}
+			delay := rng.Intn(12)
+			wg.Add(1)
+			go func() {
+				defer wg.Done()
+				defer func() {
+					if x := recover(); x != nil {
+						atomic.AddInt64(&panics, 1)
+						firstPanic.CompareAndSwap(nil, fmt.Sprint(x))
+					}
+				}()
+				<-start
+				for i := 0; i < delay; i++ {
+					runtime.Gosched()
+				}
+				switch parentEnd {
+				case 1:
+					parentCtx.Kill()
+				case 2:
+					parentCtx.AppendError(parentErr)
+				default:
+					parentCtx.Stop()
+				}
+			}()
+		}
+	}
 	for i := 0; i < g; i++ {
 		wg.Add(1)
 		go func(p plan) {
@@ -145,12 +195,21 @@ func hammer(r *sup.CaseResult, rng *rand.Rand, kind string, g, opsPer int) {
 	}
 	close(start)
 	wg.Wait()
-	wit := map[string]any{"kind": kind, "goroutines": g, "ops_per_goroutine": opsPer}
+	wit := map[string]any{"kind": kind, "goroutines": g, "ops_per_goroutine": opsPer, "parent_ended_by": []string{"-", "Kill", "AppendError", "Stop"}[parentEnd]}
 	if panics > 0 {
 		r.Violate("panic", fmt.Sprintf("[%s] %d signalling calls panicked; first: %v", kind, panics, firstPanic.Load()), wit)
 		return
 	}
-	signalled := nAppended+nKill+nStop > 0
+	if parentEnd != 0 {
+		// the watcher acts asynchronously: judge only after it has returned (no goroutine of
+		// NewIsolated created by this goroutine is left); logical steps, not a deadline
+		if !watchersGone(me) {
+			r.AddObs("parent_end_trials_skipped_watcher_still_running", 1)
+			return
+		}
+		r.AddObs("parent_end_trials_"+[]string{"", "kill", "append", "stop"}[parentEnd], 1)
+	}
+	signalled := nAppended+nKill+nStop > 0 || parentEnd != 0
 	errs := s.ctx.Errors()
 	count := map[error]int{}
 	cancels := 0
@@ -175,10 +234,15 @@ func hammer(r *sup.CaseResult, rng *rand.Rand, kind string, g, opsPer int) {
 	if missing > 0 || dup > 0 {
 		r.Violate("errors-not-retained", fmt.Sprintf("[%s] %d of %d appended errors are missing from Errors(), %d appear more than once (len(Errors())=%d)", kind, missing, nAppended, dup, len(errs)), wit)
 	}
-	if int64(cancels) != nKill {
+	watcherKill := int64(0)
+	if (parentEnd == 1 || parentEnd == 2) && int64(cancels) == nKill+1 {
+		watcherKill = 1 // the watcher saw the failed parent first and killed the isolated scope
+		r.AddObs("isolated_killed_by_its_watcher", 1)
+	}
+	if int64(cancels) != nKill+watcherKill {
 		r.Violate("kill-not-recorded", fmt.Sprintf("[%s] %d Kill calls but %d context.Canceled entries", kind, nKill, cancels), wit)
 	}
-	wantErr := nAppended+nKill > 0
+	wantErr := nAppended+nKill+watcherKill > 0
 	if (s.ctx.Err() != nil) != wantErr {
 		r.Violate("err-accessor", fmt.Sprintf("[%s] Err()=%v although appended=%d kills=%d", kind, s.ctx.Err(), nAppended, nKill), wit)
 	}
@@ -240,8 +304,11 @@ func hammer(r *sup.CaseResult, rng *rand.Rand, kind string, g, opsPer int) {
 			if kind == "child-shared" && parentFailed != wantErr {
 				r.Violate("shared-child-parent", fmt.Sprintf("[child-shared] parent Err()=%v although the child got appended=%d kills=%d", s.parent.Err(), nAppended, nKill), wit)
 			}
-			if kind == "child-isolated" && parentFailed {
+			if kind == "child-isolated" && parentEnd == 0 && parentFailed {
 				r.Violate("isolated-child-leaked", fmt.Sprintf("[child-isolated] parent Err()=%v", s.parent.Err()), wit)
+			}
+			if kind == "child-isolated" && parentEnd != 0 {
+				checkParentOwnErrors(r, kind, s.parent, parentEnd, parentErr, &appended, wit)
 			}
 			done := make(chan error, 1)
 			go func() { done <- s.parent.Wait() }()
@@ -261,8 +328,11 @@ func hammer(r *sup.CaseResult, rng *rand.Rand, kind string, g, opsPer int) {
 			}()
 		}
 	}
-	if s.isoPar != nil && s.isoPar.Err() != nil {
+	if s.isoPar != nil && parentEnd == 0 && s.isoPar.Err() != nil {
 		r.Violate("isolated-leaked", fmt.Sprintf("[isolated] parent context Err()=%v", s.isoPar.Err()), wit)
+	}
+	if s.isoPar != nil && parentEnd != 0 {
+		checkParentOwnErrors(r, kind, s.isoPar, parentEnd, parentErr, &appended, wit)
 	}
 	r.AddObs("hammer_trials", 1)
 	r.AddObs("signalling_calls", int64(g*opsPer))
@@ -270,6 +340,192 @@ func hammer(r *sup.CaseResult, rng *rand.Rand, kind string, g, opsPer int) {
 	r.AddObs("kills", nKill)
 	r.AddObs("stops", nStop)
 	r.AddObs("subject_"+kind, 1)
+}
+
+// checkParentOwnErrors: the parent of an isolated subject holds exactly what was done to the parent.
+func checkParentOwnErrors(r *sup.CaseResult, kind string, parent app.ContextScope, parentEnd int, parentErr *uerr, appended *sync.Map, wit map[string]any) {
+	errs := parent.Errors()
+	want := map[int]int{1: 1, 2: 1, 3: 0}[parentEnd]
+	leaked := 0
+	for _, e := range errs {
+		if u, ok := e.(*uerr); ok {
+			if _, mine := appended.Load(u); mine {
+				leaked++
+			}
+		}
+	}
+	if leaked > 0 {
+		r.Violate("isolated-leaked", fmt.Sprintf("[%s] %d errors appended to the isolated scope appear in its parent's Errors()", kind, leaked), wit)
+	}
+	if len(errs) != want {
+		r.Violate("isolated-parent-errors", fmt.Sprintf("[%s] parent ended by %s holds %d errors, want %d: %v", kind, []string{"", "Kill", "AppendError", "Stop"}[parentEnd], len(errs), want, errs), wit)
+	}
+	if parentEnd == 2 && want == len(errs) && errs[0] != error(parentErr) {
+		r.Violate("isolated-parent-errors", fmt.Sprintf("[%s] parent holds %v instead of the error appended to it", kind, errs[0]), wit)
+	}
+}
+
+// goid is the id of the calling goroutine (as printed in goroutine dumps).
+func goid() string {
+	buf := make([]byte, 64)
+	f := strings.Fields(string(buf[:runtime.Stack(buf, false)]))
+	if len(f) > 1 {
+		return f[1]
+	}
+	return "?"
+}
+
+// watchersGone waits (scheduler yields, a bounded number of rounds) until no watcher goroutine of
+// contextscope.NewIsolated created by goroutine creator is left.
+func watchersGone(creator string) bool {
+	buf := make([]byte, 4<<20)
+	for round := 0; round < 4000; round++ {
+		left := false
+		for _, blk := range strings.Split(string(buf[:runtime.Stack(buf, true)]), "\n\n") {
+			if strings.Contains(blk, "contextscope.NewIsolated.func") && strings.Contains(blk, "in goroutine "+creator+"\n") {
+				left = true
+				break
+			}
+		}
+		if !left {
+			return true
+		}
+		if round%20 == 19 {
+			time.Sleep(100 * time.Microsecond)
+		} else {
+			runtime.Gosched()
+		}
+	}
+	return false
+}
+
+// observers: the scope is ended by Kill / AppendError only (no Stop anywhere), so its done signal
+// is caused by a call that carries an error. Whoever reacts to the done signal – a goroutine
+// polling IsDone()/Done(), or Wait() returning because the scope's task left on Done() – must
+// find that error: it is "reported by the error accessors and by waiting on it".
+func observers(r *sup.CaseResult, rng *rand.Rand, kind string) {
+	s := newSubject(kind)
+	defer func() {
+		if s.rawPar != nil {
+			s.rawIso.Stop()
+			s.rawPar.Stop()
+		}
+	}()
+	nEnd, nObs := 1+rng.Intn(3), 1+rng.Intn(3)
+	withTask := s.scp != nil && rng.Intn(2) == 0
+	var bad, seen, panics int64
+	var first atomic.Value
+	var wg sync.WaitGroup
+	start := make(chan struct{})
+	guard := func() {
+		if x := recover(); x != nil {
+			atomic.AddInt64(&panics, 1)
+			first.CompareAndSwap(nil, "panic: "+fmt.Sprint(x))
+		}
+	}
+	var werr error
+	waited := false
+	if withTask {
+		if s.scp.AddTasks(1) == nil {
+			waited = true
+			wg.Add(2)
+			go func() {
+				defer wg.Done()
+				defer guard()
+				<-s.scp.Done()
+				s.scp.DoneTask()
+			}()
+			go func() {
+				defer wg.Done()
+				defer guard()
+				werr = s.scp.Wait()
+			}()
+		}
+	}
+	for i := 0; i < nObs; i++ {
+		wg.Add(1)
+		how := rng.Intn(3)
+		if how == 0 && runtime.GOMAXPROCS(0) == 1 {
+			how = 2 // a tight loop on one processor only waits for its own preemption
+		}
+		go func() {
+			defer wg.Done()
+			defer guard()
+			<-start
+			switch how {
+			case 0:
+				for !s.ctx.IsDone() {
+				}
+			case 1:
+				<-s.ctx.Done()
+			default:
+				for !s.ctx.IsDone() {
+					runtime.Gosched()
+				}
+			}
+			e, n := s.ctx.Err(), len(s.ctx.Errors())
+			atomic.AddInt64(&seen, 1)
+			if e == nil || n == 0 {
+				atomic.AddInt64(&bad, 1)
+				first.CompareAndSwap(nil, fmt.Sprintf("after the done signal (observed through %s) Err()=%v and len(Errors())=%d", []string{"a tight IsDone loop", "<-Done()", "an IsDone loop with yields"}[how], e, n))
+			}
+		}()
+	}
+	nKill := 0
+	for i := 0; i < nEnd; i++ {
+		wg.Add(1)
+		kill := rng.Intn(2) == 0
+		if kill {
+			nKill++
+		}
+		delay := rng.Intn(10)
+		go func() {
+			defer wg.Done()
+			defer guard()
+			<-start
+			for k := 0; k < delay; k++ {
+				runtime.Gosched()
+			}
+			if kill {
+				s.ctx.Kill()
+			} else {
+				s.ctx.AppendError(&uerr{id: atomic.AddInt64(&errCtr, 1)})
+			}
+		}()
+	}
+	close(start)
+	wg.Wait()
+	wit := map[string]any{"kind": kind, "enders": nEnd, "kills": nKill, "observers": nObs, "task_and_waiter": waited}
+	if panics > 0 {
+		r.Violate("panic", fmt.Sprintf("[%s] observers scenario: %d goroutines panicked; first: %v", kind, panics, first.Load()), wit)
+		return
+	}
+	if bad > 0 {
+		r.Violate("done-without-error-observed", fmt.Sprintf("[%s] the scope was ended by Kill/AppendError only (%d enders, %d Kill), yet %d of %d observers found no error once the done signal had fired: %v", kind, nEnd, nKill, bad, nObs, first.Load()), wit)
+	}
+	if waited {
+		r.AddObs("waits_released_by_the_done_signal", 1)
+		if werr == nil {
+			r.Violate("wait-result", fmt.Sprintf("[%s] Wait() was released by the done signal of a scope ended by Kill/AppendError only (%d enders, %d Kill) and returned nil", kind, nEnd, nKill), wit)
+		}
+	}
+	if s.scp != nil {
+		func() {
+			defer func() {
+				if x := recover(); x != nil {
+					r.Violate("close-panic", fmt.Sprintf("[%s] Close panicked: %v", kind, x), wit)
+				}
+			}()
+			if s.scp.Close() == nil {
+				r.Violate("close-result", fmt.Sprintf("[%s] Close()=nil after %d Kill/AppendError calls", kind, nEnd), wit)
+			}
+			if s.parent != nil {
+				s.parent.Close()
+			}
+		}()
+	}
+	r.AddObs("observer_trials", 1)
+	r.AddObs("observations_after_the_done_signal", seen)
 }
 
 // childOfDone: child creation/closing racing with and following the parent's end.
@@ -588,6 +844,7 @@ func plan(tier string, seed int64) []sup.Batch {
 	add("hammer", "hammer", nHammer, 12)
 	add("child", "child", nChild, 8)
 	add("cmd", "cmd", nCmd, 4)
+	add("observe", "observe", nHammer/2, 8)
 	return bs
 }
 
@@ -596,10 +853,12 @@ func main() {
 		ID:    "C12",
 		Level: "exploration",
 		Race:  true,
-		Rule: "hammer: 2…64 goroutines released together issue PRNG-chosen AppendError(unique)/Kill/Stop/IsDone/Err/Errors/Done on one plain context, isolated context, scope, shared child or isolated child (GOMAXPROCS 1/2/4/16) – no panic, every appended error retained exactly once (+ one context.Canceled per Kill), Err/Wait/Close report an error iff something was appended, Done closed, shared child fails its parent, isolated child does not; " +
+		Rule: "hammer: 2…64 goroutines released together issue PRNG-chosen AppendError(unique)/Kill/Stop/IsDone/Err/Errors/Done on one plain context, isolated context, scope, shared child or isolated child (GOMAXPROCS 1/2/4/16) – no panic, every appended error retained exactly once (+ one context.Canceled per Kill), Err/Wait/Close report an error iff something was appended, Done closed, shared child fails its parent, isolated child does not; for isolated subjects in half of the trials another goroutine ends the parent (Kill/AppendError/Stop) meanwhile: judged once the watcher goroutine has returned – still every appended error retained, at most one extra context.Canceled, the parent holds exactly its own errors; " +
+			"observe: the scope is ended by 1…3 concurrent Kill/AppendError calls only, 1…3 observers react to the done signal (tight IsDone loop, <-Done(), IsDone with yields) and read Err()/Errors(); scopes also with a task that leaves on Done() and a Wait() released by it – an error must be there; " +
 			"child: goroutines create and close children of a scope while another goroutine ends it, then after its end – no panic, parent.Wait() returns, parent closes; cmd: terminal commands (termexec.RunCommand through the real terminal service) issued on an IO context whose scope is being killed. The race detector decides for contextscope/*, scope/scope.go, scope/child.go. distinct = distinct (subject, goroutine count, plan)",
 		Assumptions: []string{
 			"'the done signal fires exactly once' is observable only as the absence of a close-of-closed-channel panic",
+			"in a trial whose only ending calls are Kill/AppendError the done signal is caused by a call that carries an error, so an observation made after the signal (accessors, or Wait released by it) must report an error; with Stop calls in the mix a done scope without errors is legitimate and nothing is asserted",
 			"Wait() of the parent is called after all racing creators were joined (calling WaitGroup.Wait concurrently with the first Add is documented misuse and not exercised)",
 		},
 		Plan: plan,
@@ -626,6 +885,8 @@ func main() {
 								g = 16
 							}
 							childOfDone(r, rng, g, idx%3 == 0)
+						case "observe":
+							observers(r, rng, kinds[idx%len(kinds)])
 						case "cmd":
 							if m == nil {
 								var err error
@@ -649,6 +910,11 @@ func main() {
 			}
 		},
 		Finish: func(t *sup.Totals) string {
+			for _, k := range []string{"observer_trials", "observations_after_the_done_signal", "waits_released_by_the_done_signal", "parent_end_trials_kill", "parent_end_trials_append", "parent_end_trials_stop", "isolated_killed_by_its_watcher"} {
+				if t.Obs[k] == 0 {
+					return "monitor observed nothing for " + k
+				}
+			}
 			if t.Obs["hammer_trials"] == 0 || t.Obs["child_trials"] == 0 || t.Obs["command_trials"] == 0 || t.Obs["children_created_after_parent_done"] == 0 {
 				return "a monitor observed nothing"
 			}
